@@ -751,6 +751,24 @@ mod persist_enc {
         b.to_vec()
     }
 }
+/// encoder 7 = `encode_command` of the CLI client in src/main.rs (a bin target), compiled from its source text
+#[cfg(verif_main_enc)]
+mod main_enc {
+    #![allow(dead_code)]
+    include!(concat!(env!("OUT_DIR"), "/main_enc.rs"));
+    pub fn enc(parts: &[&str]) -> Vec<u8> {
+        encode_command(parts)
+    }
+}
+/// the shadow proxy's command-name extractor `parse_resp_command` (src/bin/shadow_proxy.rs), compiled from its source text
+#[cfg(verif_proxy_dec)]
+mod proxy_dec {
+    #![allow(dead_code)]
+    include!(concat!(env!("OUT_DIR"), "/proxy_dec.rs"));
+    pub fn name(data: &[u8]) -> Option<String> {
+        parse_resp_command(data)
+    }
+}
 #[cfg(verif_persist_enc)]
 fn persist_encoders(rv: &RespValue) -> Vec<(u8, Vec<u8>)> {
     vec![(5, persist_enc::enc(rv))]
@@ -948,6 +966,94 @@ fn command_encoder(cx: &mut Ctx) {
     cx.out.count(if bytes == b"*1\r\n$4\r\nPING\r\n" { "encoder6:other-commands-sent-as-PING(documented)" } else { "encoder6:other-commands-encoded" });
 }
 
+/// encoder 7: the CLI client's `encode_command(parts: &[&str])` — the same frame as encoder 6 (model CE)
+#[cfg(verif_main_enc)]
+fn cli_encoder(cx: &mut Ctx) {
+    let lines: [&[&str]; 9] = [&[], &["PING"], &["GET", "k"], &["SET", "k", "v"], &["set", "ké✓", "0123456789012345678901234567890123456789"], &["ECHO", ""],
+        &["DEL", "a", "b", "c", "d", "e", "f", "g", "h", "i", "j", "k"], &["X\r\nY", "\r\n"], &["EVAL", "return redis.call('GET', KEYS[1])", "1", "k"]];
+    for parts in lines {
+        let bytes = main_enc::enc(parts);
+        let op = format!("CE {}", parts.iter().map(|a| hex(a.as_bytes())).collect::<Vec<_>>().join(" "));
+        let op = op.trim_end().to_string();
+        cx.out.op(op.clone(), hex(&bytes));
+        cx.out.case(&format!("CE7|{}", op), true);
+        cx.out.count("encoder:7");
+        let o = decode_here(1, &bytes);
+        let want = V::A(parts.iter().map(|a| V::B(a.as_bytes().to_vec())).collect());
+        if !(o.kind == Kind::Ok && o.consumed == bytes.len() && o.val.as_ref() == Some(&want)) {
+            cx.out.violation("C15:roundtrip:cli-command-encoder", "a command line written by the CLI client's encode_command does not decode to the array of its words", json!({"words": parts, "encoded": hex(&bytes), "decoded": o.line(), "expected": want.show()}));
+        }
+    }
+}
+#[cfg(not(verif_main_enc))]
+fn cli_encoder(cx: &mut Ctx) {
+    cx.out.violation("C15:coverage:cli-encoder-not-extracted", "harness/build.rs did not find the free function `encode_command` in src/main.rs: the CLI client's copy of the command encoder is not driven", json!({"file": "src/main.rs"}));
+}
+
+/// the shadow proxy's command-name extractor on client frames, their truncations, near-frames and short
+/// strings over the grammar alphabet: never a panic; the name the model predicts (Resp.proxyName)
+#[cfg(verif_proxy_dec)]
+fn proxy_names(cx: &mut Ctx) {
+    fn frame(args: &[&[u8]]) -> Vec<u8> {
+        let mut v = format!("*{}\r\n", args.len()).into_bytes();
+        for a in args {
+            v.extend(format!("${}\r\n", a.len()).into_bytes());
+            v.extend_from_slice(a);
+            v.extend_from_slice(b"\r\n");
+        }
+        v
+    }
+    let mut inputs: Vec<Vec<u8>> = Vec::new();
+    let cmds: [&[&[u8]]; 12] = [&[b"PING"], &[b"get", b"k"], &[b"SET", b"k", b"v"], &[b"set", b"k", b"\xff\x00"], &[b"\r\n"], &[b"a\rb", b"x"], &[b"G\r\nT", b"x"], &[b""], &[],
+        &["\u{e9}cho".as_bytes(), b"x"], &[b"stra\xc3\x9fe"], &[b"MiXeD-123_z{|}~", b"\r\n"]];
+    for c in cmds {
+        let f = frame(c);
+        for cutoff in 0..=f.len() {
+            inputs.push(f[..cutoff].to_vec());
+        }
+        let mut two = f.clone();
+        two.extend_from_slice(&frame(&[b"PING"]));
+        inputs.push(two);
+    }
+    for s in [&b"*1\r\n$2\r\n\r\n\r\n"[..], b"*2\r\nX3\r\nGET\r\n", b"*2\r\n$3\r\n", b"*2\r\n$3", b"*\r\n$\r\n\r\n", b"*\r\n\r\n\r\n", b"\r\n$\r\nA\r\n", b"*1\n$4\nPING\n", b"*1\r$4\rPING\r",
+        b"*1\r\r\n$4\r\r\nPING", b"*-1\r\n", b"*1\r\n+PING\r\n", b"*1\r\n:1\r\n", b"$4\r\nPING\r\n", b"+OK\r\n", b"*1\r\n$4\r\nping\r\n\xff", b"*1\r\n$1\r\n\xc3\r\n"] {
+        inputs.push(s.to_vec());
+    }
+    // every string of length <= 5 over a small alphabet, after `*`
+    let alpha: &[u8] = b"*$1\r\na";
+    for len in 0..=5usize {
+        let total = (alpha.len() as u64).pow(len as u32);
+        for mut idx in 0..total {
+            let mut s = vec![b'*'];
+            for _ in 0..len {
+                s.push(alpha[(idx % alpha.len() as u64) as usize]);
+                idx /= alpha.len() as u64;
+            }
+            inputs.push(s);
+        }
+    }
+    for data in inputs {
+        let r = std::panic::catch_unwind(|| proxy_dec::name(&data));
+        let line = match &r {
+            Err(_) => "crash".to_string(),
+            Ok(None) => "none".to_string(),
+            // (Unicode upper-casing is not modelled: the name is compared for all-ASCII buffers only)
+            Ok(Some(n)) => if data.is_ascii() { format!("name={}", hex(n.as_bytes())) } else { "name=~".to_string() },
+        };
+        let op = format!("PN {}", hex(&data));
+        cx.out.op(op.clone(), line);
+        cx.out.case(&op, data.len() > 1);
+        cx.out.count("proxy-name");
+        if r.is_err() {
+            cx.out.violation("C15:crash:proxy-name-extractor", "parse_resp_command of the shadow proxy panicked on client bytes", json!({"input": hex(&data)}));
+        }
+    }
+}
+#[cfg(not(verif_proxy_dec))]
+fn proxy_names(cx: &mut Ctx) {
+    cx.out.violation("C15:coverage:proxy-name-extractor-not-extracted", "harness/build.rs did not find the free function `parse_resp_command` in src/bin/shadow_proxy.rs: the proxy's reader of client frames is not driven", json!({"file": "src/bin/shadow_proxy.rs"}));
+}
+
 /// every value of the FIRST byte (RESP3 type bytes, inline commands, control bytes) before several
 /// tails; nesting exactly around MAX_NESTING_DEPTH; bulk payloads around the sizes that matter
 fn sweeps(cx: &mut Ctx) {
@@ -1052,8 +1158,8 @@ fn codec_enumeration(cx: &mut Ctx) {
             ("src/simulator/connection.rs", "encode_resp") => "encoder 4: E4 ops (hook H1c)",
             ("src/simulator/connection.rs", "encode_command") => "encoder 6 (client side): CE ops through the public SimulatedReadBuffer API",
             ("src/bin/server_persistent.rs", "encode_resp_into") | ("src/bin/server_persistent.rs", "encode_error_into") => "encoder 5 + its error encoder: E5 / EE5 ops on the source text compiled into the harness (build.rs)",
-            ("src/main.rs", "encode_command") => "NOT driven: the CLI client of the bin target main.rs (a command line split on blanks written as an array of bulk strings: the shape of encoder 6, theorem command_frame_decodes)",
-            ("src/bin/shadow_proxy.rs", "parse_resp_command") => "NOT driven: bin target shadow_proxy (extracts the command NAME of a frame for logging / routing of the proxy, no replies are built from it)",
+            ("src/main.rs", "encode_command") => "encoder 7 (CLI client of the bin target main.rs): CE ops on its source text compiled into the harness (build.rs); theorem command_frame_decodes",
+            ("src/bin/shadow_proxy.rs", "parse_resp_command") => "the shadow proxy's command-name extractor: PN ops on its source text compiled into the harness (build.rs); model Resp.proxyName, theorems proxy_name_agrees_partial / proxy_name_counterexample",
             ("src/redis/server.rs", "encode_with_request_id") | ("src/redis/server.rs", "decode_request_id") => "not RESP: 8-byte request-id envelope of the simulated server around RespParser::parse / encode (decoder 2 / encoder 2)",
             _ => return None,
         })
@@ -1702,6 +1808,8 @@ fn run_inner(a: &Args) {
     error_encoder(&mut cx);
     error_encoder5(&mut cx);
     command_encoder(&mut cx);
+    cli_encoder(&mut cx);
+    proxy_names(&mut cx);
     sweeps(&mut cx);
     codec_enumeration(&mut cx);
     // the static reply constructors of RespValue
